@@ -62,11 +62,12 @@ def run(chk) -> None:
         "Static rules on clashfinder.py: radii per atom type obtained by abstract evaluation of AtomType.radius (module-level tables folded). find_clashes is read from the ast and evaluated "
         "(sa/blockeval + rule-supplied stubs, KD-tree modelled as 'every pair within the radius once'; nothing of the library is imported or run) on one synthetic structure of well separated "
         "two-atom clusters, one per input class (16 ordered type pairs x 4 distance cells just below/above r_a+r_b and r_a+r_b+0.5; same/different residue x nucleotide flags x equal/different "
-        "names x 5 occupancy classes incl. 0.0 and missing x 2 distance cells; atoms of no known type), for all 32 option combinations, plus inputs with fewer than two atoms; the listed pairs, "
+        "names x 6 occupancy classes incl. 0.0, missing and a sum of 0.99 x 2 distance cells; two different residues that share chain/number/insertion code; atoms of no known type incl. hydrogens named HO../HN..), for all 32 option combinations, plus inputs with fewer than two atoms; the listed pairs, "
         "record roles and sums are compared with the pairwise van-der-Waals definition; the evaluated KD-tree radius must cover the largest threshold; every atomic condition met is classified as "
         "a function of one feature of the definition (closed world). main is evaluated the same way on a representative clash list with tokens for chains, residues and atoms: listed lines and "
-        "CSV rows = the clashes, every atom under its own residue (key and record of a filed clash agree on orientation), printed maxima, same order in both outputs, independence of set iteration "
-        "order. Positional CLI arguments vs parameter names; accumulator updates read what they write; no truthiness default on occupancies. The pinned-form rules run only when a function cannot be evaluated."
+        "CSV rows = the clashes, every atom under its own residue (key and record of a filed clash agree on orientation), printed maxima = maxima of the listed lines (maxima in the middle of file and sort order; "
+        "residue pairs that differ in one identity component), same order in both outputs, independence of set iteration order; the evaluated call of find_clashes binds every option parameter to the switch of the same name "
+        "(positional or keyword); read_metadata receives an open file. Accumulator updates read what they write; no truthiness default on occupancies. The pinned-form rules run only when a function cannot be evaluated."
     )
     chk.trusted = ["CPython ast", "scipy KDTree.query_pairs returns every pair within the radius exactly once"]
     chk.assumptions = ["float distance arithmetic is not decided", "atom typing by first letter of the name as coded (C/N/O/P)"]
@@ -93,7 +94,10 @@ def run(chk) -> None:
             chk.error("clash-facts", fi.where, f"find_clashes can be read neither at fact level ({why[:100]}) nor in its pinned form ({ex})")
     mt =repo.func(M, "AtomType.matches")
     chk.note_function(mt)
-    chk.expect([norm(s) for s in mt.node.body] == ["return atom.name.strip().startswith(self.value)"], "collection", mt.where, "an atom matches a type when its name starts with the type letter", "AtomType.matches changed", K(mt, "matches"))
+    if why is None:
+        chk.ok("collection", mt.where, "atom typing is decided by rule `collection` on the evaluated structure: atoms named H1, M2, HO1, HN2, HC1, HP2 right next to typed atoms are not considered, every C/N/O/P atom is")
+    else:
+        chk.expect([norm(s) for s in mt.node.body] == ["return atom.name.strip().startswith(self.value)"], "collection", mt.where, "an atom matches a type when its name starts with the type letter", "AtomType.matches changed", K(mt, "matches"))
     check_cli(chk, fi)
     for rule, n in (("search-radius", 1), ("option-filter", 2), ("distance-threshold", 2), ("cli-arguments", 2)):
         chk.floor(rule, n)
@@ -180,6 +184,10 @@ def legacy_find_clashes(chk, fi, radii, c) -> None:
         alt = t.replace(" is True", "")
         chk.expect(seen.get(opt) in ([t], [alt]), "option-filter", fi.site(loop), f"{opt} guards exactly `{t.split(' and ')[1]}`", f"option {opt} is not wired to its own filter (`{t}`): found {seen.get(opt)}", K(fi, f"option:{opt}"), expected=t, found=seen.get(opt))
     for s in extra:
+        n_opts = sum(1 for p in ("ignore_autoclashes", "require_same_atom_name", "ignore_occupancy", "nucleic_acid_only", "enable_molprobity_mode") if p in astq.names(s.test))
+        if n_opts >= 2:  # several filters merged into one test: not readable in the pinned form (the fact-level reading decides it)
+            chk.error("option-extra-filter", fi.site(s), f"filter `if {norm(s.test)[:70]}: continue` combines {n_opts} options: not readable in the pinned form")
+            continue
         chk.violation("option-extra-filter", fi.site(s), f"additional filter `if {norm(s.test)[:70]}: continue` in the clash loop", K(fi, f"extra:{norm(s.test)[:50]}"))
     chk.ok("option-extra-filter", fi.site(loop), "only the autoclash, same-name and distance filters skip a pair")
     # occupancy rule and record
@@ -274,22 +282,29 @@ def legacy_find_clashes(chk, fi, radii, c) -> None:
                 chk.expect(not bad2, "collection", fi.site(al), "an atom is registered (residue, atom, coordinates in parallel) iff it matches one of the four types", bad2[0] if bad2 else "", K(fi, "collection-atoms"))
 
 
-def check_cli(chk, fi) -> None:
-    repo = chk.repo
-    # ---- CLI -----------------------------------------------------------------------------------------------
-    mn = repo.func(M, "main")
-    chk.note_function(mn)
+def legacy_cli_arguments(chk, mn, params) -> None:
+    """Pinned form of `cli-arguments` (fallback when main cannot be evaluated): positional `args.<parameter name>`."""
     calls = astq.calls(mn.node, "find_clashes")
-    params = [a.arg for a in fi.node.args.args]
     ok = False
     found = None
+    readable = False
     if len(calls) == 1:
         args = calls[0].args
-        found = [norm(a) for a in args]
-        ok = len(args) == len(params) and norm(args[0]) == "structure3d.residues" and all(norm(a) == f"args.{p}" for a, p in zip(args[1:], params[1:])) and not calls[0].keywords
-    chk.expect(ok, "cli-arguments", mn.where, "every option is passed to the parameter of the same name", "CLI options are not passed to find_clashes parameters of the same name (positional mix-up)", K(mn, "cli-args"), expected=["structure3d.residues"] + [f"args.{p}" for p in params[1:]], found=found)
+        found = [norm(a) for a in args] + [f"{k.arg}={norm(k.value)}" for k in calls[0].keywords]
+        readable = all(norm(a).startswith("args.") for a in args[1:]) and all(k.arg is not None and norm(k.value).startswith("args.") for k in calls[0].keywords)
+        bound = dict(zip(params, [norm(a) for a in args]))
+        bound.update({k.arg: norm(k.value) for k in calls[0].keywords if k.arg is not None})
+        ok = readable and len(args) <= len(params) and bound.get(params[0]) == "structure3d.residues" and all(bound.get(p) == f"args.{p}" for p in params[1:])
+    if not ok and not readable:
+        chk.error("cli-arguments", mn.where, f"arguments of find_clashes not understood: {found}")
+    else:
+        chk.expect(ok, "cli-arguments", mn.where, "every option is passed to the parameter of the same name", "CLI options are not passed to find_clashes parameters of the same name (mix-up)", K(mn, "cli-args"), expected=["structure3d.residues"] + [f"args.{p}" for p in params[1:]], found=found)
     flags = sorted(a.args[0].value for a in astq.calls(mn.node, "add_argument") if a.args and isinstance(a.args[0], ast.Constant) and any(k.arg == "action" and norm(k.value) == "'store_true'" for k in a.keywords))
     chk.expect(flags == sorted("--" + p.replace("_", "-") for p in params[1:]), "cli-arguments", mn.where, "one boolean switch per option", "the set of boolean switches differs from find_clashes' options", K(mn, "cli-flags"), found=flags)
+
+
+def legacy_csv_metadata_arg(chk, mn) -> None:
+    """Pinned form of `csv-metadata-arg` (fallback when main cannot be evaluated)."""
     # CSV: read_metadata(file: IO) needs an open file (it uses file.name), not the path string
     for c2 in astq.calls(mn.node, "read_metadata"):
         a0 = c2.args[0] if c2.args else None
@@ -306,10 +321,21 @@ def check_cli(chk, fi) -> None:
             chk.violation("csv-metadata-arg", mn.site(c2), f"read_metadata (which reads file.name) receives the path string `{norm(a0)}`: --csv raises AttributeError as soon as one clash is found, no CSV is written", K(mn, f"read_metadata({norm(a0)})"))
         else:
             chk.error("csv-metadata-arg", mn.site(c2), f"argument `{norm(a0) if a0 is not None else None}` of read_metadata not classified (path or open file)")
+
+
+def check_cli(chk, fi) -> None:
+    repo = chk.repo
+    # ---- CLI -----------------------------------------------------------------------------------------------
+    mn = repo.func(M, "main")
+    chk.note_function(mn)
+    params = [a.arg for a in fi.node.args.args]
     # report and CSV: fact-level first (main evaluated on a representative clash list), pinned forms as the fallback
     from checks import c17e
 
-    why = c17e.check_main(chk, mn)
+    why = c17e.check_main(chk, mn, fi)  # incl. the fact-level `cli-arguments` (evaluated call of find_clashes)
+    if why is not None:
+        legacy_cli_arguments(chk, mn, params)
+        legacy_csv_metadata_arg(chk, mn)
     # accumulators read what they write
     n_acc = 0
     for s in ast.walk(mn.node):
@@ -376,10 +402,12 @@ def check_cli(chk, fi) -> None:
 
 MANIFEST_ENTRY = {
     "text": "Static decision on the current source of clashfinder.py: the KD-tree radius (evaluated for all 32 option combinations) is at least r_a + r_b + extra for every pair of atom types, so no accepted pair is outside the search; "
-    "the pairs listed by find_clashes, evaluated on one representative per input class (type pair x distance cell, residue/nucleotide configuration, name equality, occupancy class) for all 32 option combinations, are exactly those of the "
-    "van-der-Waals definition (extra = 0.5 iff MolProbity; each option guards exactly one filter; occupancy rule and sum; atoms considered; record roles; each pair once) and nothing else skips a pair (closed world of the atomic conditions); "
-    "CLI arguments go to same-named parameters; running maxima read the entry they write; occupancy defaults only for None; report and CSV list exactly the clashes found, every atom under its own residue (the key a clash is filed under and "
-    "the stored record agree on the order of the pair), printed maxima equal the maxima of the listed lines, both outputs in the same order and independent of set iteration order. Completeness of a search radius is a for-all-pairs claim decided here for all type pairs at once.",
+    "the pairs listed by find_clashes, evaluated on one representative per input class (type pair x distance cell, residue/nucleotide configuration, two different residues that share chain/number/insertion code, name equality, occupancy class "
+    "incl. 0.0, missing and a sum of 0.99, atoms of no known type) for all 32 option combinations, are exactly those of the van-der-Waals definition (extra = 0.5 iff MolProbity; each option guards exactly one filter; occupancy rule and sum; "
+    "atoms considered; record roles; each pair once) and nothing else skips a pair (closed world of the atomic conditions); the evaluated call of find_clashes in main binds every option parameter to the switch of the same name; running maxima "
+    "read the entry they write; occupancy defaults only for None; report and CSV list exactly the clashes found, every atom under its own residue (the key a clash is filed under and the stored record agree on the order of the pair), the maxima "
+    "printed per residue pair and per chain pair equal the maxima of the atom clashes listed below the heading (largest sum in the middle of file and sort order, residue pairs that differ in one identity component only), both outputs in the "
+    "same order and independent of set iteration order. Completeness of a search radius is a for-all-pairs claim decided here for all type pairs at once.",
     "note": "Trusted: KD-tree completeness and pair uniqueness; float distance not decided.",
-    "technique": "static analysis: abstract evaluation of the radius property per Enum member, evaluation of find_clashes / main read from the ast on input-class representatives with stubs (finite partition, nothing of the library imported or run), closed-world classification of atomic conditions by feature, argument/parameter agreement; pinned-form rules only as fallback",
+    "technique": "static analysis: abstract evaluation of the radius property per Enum member, evaluation of find_clashes / main read from the ast on input-class representatives with stubs (finite partition, nothing of the library imported or run), closed-world classification of atomic conditions by feature, argument/parameter binding on the evaluated call; pinned-form rules only as fallback",
 }
